@@ -466,7 +466,7 @@ func (x *X) evalCall(env *Env, e *ast.CallExpr) TV {
 			b := x.eval(env, e.Args[1]).V.(Slice)
 			return TV{S{fmt.Sprintf("(and (= %s %s) (= %s %s))", a.Arr, b.Arr, a.Off, b.Off), SBool}, boolT}
 		case "backed":
-			// backed(s, &p.f): slice s starts at element 0 of the array field f of object p
+			// backed(s, &p.f): slice s starts at element 0 of the array field f of object p and has its capacity
 			sl := x.eval(env, e.Args[0]).V.(Slice)
 			if u, ok := e.Args[1].(*ast.UnaryExpr); ok && u.Op == token.AND {
 				if sel, ok := u.X.(*ast.SelectorExpr); ok {
@@ -474,7 +474,16 @@ func (x *X) evalCall(env *Env, e *ast.CallExpr) TV {
 					if p, ok := base.V.(Ptr); ok && p.Kind == pObj && len(p.Path) == 0 {
 						root := base.T.Underlying().(*types.Pointer).Elem()
 						id := x.interiorArr(objLoc(root, p.Obj).field(sel.Sel.Name))
-						return TV{S{fmt.Sprintf("(and (= %s %s) (= %s 0))", sl.Arr, id, sl.Off), SBool}, boolT}
+						capFact := ""
+						if st, ok := root.Underlying().(*types.Struct); ok {
+							for i := 0; i < st.NumFields(); i++ {
+								if at, isArr := st.Field(i).Type().Underlying().(*types.Array); isArr && st.Field(i).Name() == sel.Sel.Name {
+									// ... and extends to the end of that array (as p.f[:k] does)
+									capFact = fmt.Sprintf(" (= %s %d)", sl.Cap, at.Len())
+								}
+							}
+						}
+						return TV{S{fmt.Sprintf("(and (= %s %s) (= %s 0)%s)", sl.Arr, id, sl.Off, capFact), SBool}, boolT}
 					}
 				}
 			}
